@@ -322,7 +322,7 @@ func parserLedger(s *Scn, fnName string, side int, minArgs int) {
 		_ = i
 	}
 	verif.Reach("agreed", true)
-	if fnName == vmcommon.BuiltInFunctionMultiESDTNFTTransfer {
+	if fnName == vmcommon.BuiltInFunctionMultiESDTNFTTransfer && len(scnItems) > 1 {
 		verif.Reach("agreed-multi", len(res.ESDTTransfers) > 1)
 	}
 	verif.ObserveU64("n", uint64(len(res.ESDTTransfers)))
